@@ -240,6 +240,8 @@ type pFrame struct {
 	Bad         bool // generated with an interior zero
 	MotionAimed bool
 	MarkerLike  bool // first four bytes equal the first four bytes of the 'clear' marker
+	// a valid frame with zero pixels deep inside a wide border
+	WideBorderZero bool
 }
 
 func putWordBE(b []byte, word int, v uint16) { b[2*word], b[2*word+1] = byte(v>>8), byte(v) }
@@ -443,12 +445,51 @@ var connSerial int
 // prepareSymlinkedOut makes prepareConn reach the output directory through symbolic links.
 var prepareSymlinkedOut bool
 
+// prepareRelativeOut makes prepareConn configure a relative output-dir (see there).
+var prepareRelativeOut bool
+
+// relativeOutDecoys lists directories named like the relative output-dir under other bases.
+func relativeOutDecoys(connDir string) []string {
+	return []string{filepath.Join(connDir, "etc", "out-rel"), filepath.Join(connDir, "out-rel")}
+}
+
 func prepareConn(scratch string, cfg *pConfig, cam pCamera) (*connRun, error) {
 	connSerial++
 	dir := filepath.Join(scratch, fmt.Sprintf("conn%06d", connSerial))
 	r := &connRun{Dir: dir, ConfDir: filepath.Join(dir, "etc"), OutDir: filepath.Join(dir, "out"), Cfg: cfg, Cam: cam}
 	if err := os.MkdirAll(r.ConfDir, 0755); err != nil {
 		return nil, err
+	}
+	if prepareRelativeOut {
+		// output-dir is a relative path and the daemon's working directory is not the
+		// configuration directory (only in a child process of its own: chdir is process-wide)
+		cwd := filepath.Join(dir, "cwd")
+		if err := os.MkdirAll(cwd, 0755); err != nil {
+			return nil, err
+		}
+		if err := os.Chdir(cwd); err != nil {
+			return nil, err
+		}
+		r.OutDir = filepath.Join(cwd, "out-rel")
+		if err := os.MkdirAll(r.OutDir, 0755); err != nil {
+			return nil, err
+		}
+		// directories of the same relative name exist under other bases too (the configuration
+		// directory, its parent): nothing may ever be written there
+		for _, decoy := range relativeOutDecoys(dir) {
+			if err := os.MkdirAll(decoy, 0755); err != nil {
+				return nil, err
+			}
+		}
+		if err := ioutil.WriteFile(filepath.Join(r.ConfDir, "config.toml"), []byte(cfg.toml("out-rel", filepath.Join(dir, "frames.sock"))), 0644); err != nil {
+			return nil, err
+		}
+		conf, err := ParseConfig(r.ConfDir)
+		if err != nil {
+			return nil, fmt.Errorf("ParseConfig: %v", err)
+		}
+		r.Conf = conf
+		return r, nil
 	}
 	if prepareSymlinkedOut {
 		// the configured output directory and its constant-recordings folder are symbolic
